@@ -355,3 +355,47 @@ Proof.
   destruct (M SH') as [b [Mb Hb]]. exists b. split; [exact Mb|].
   intros c Hc. apply Hb. apply HE. right. exact Hc.
 Qed.
+
+(* the same statement with the record and the predicates of Spec.v written out (restated in props/C02.v) *)
+Theorem checker_sound_spelled_out : forall (g : list (list nat)) (p : list action),
+  plan_ok g p = true ->
+  (* every commit of the retained connected component is analysed (and nothing else) *)
+  retained g (analysed p) /\
+  (* whenever a commit is analysed on a branch, that branch is live and has analysed exactly the ancestors
+     (or self) of one parent of the commit, that parent last; a commit without parents starts a fresh branch *)
+  (forall p1 c b p2, p = p1 ++ commit_on c b :: p2 ->
+     c < length g /\
+     exists x, get (run init p1) b = Live x /\
+       match last x with
+       | None => inc x = [] /\ parents g c = []
+       | Some q => In q (parents g c) /\ forall a, In a (inc x) <-> Anc g a q
+       end) /\
+  (* the replays of a commit are one block on distinct branches, one per non-redundant parent (redundant =
+     fast-forward parents cause no replay); with several replays the next action merges exactly these
+     branches, after which each of them holds exactly the full ancestry of the commit *)
+  (forall c, In c (analysed p) ->
+     exists p1 bs p2,
+       p = p1 ++ map (commit_on c) bs ++ p2 /\
+       ~ In c (analysed p1) /\ ~ In c (analysed p2) /\ NoDup bs /\
+       ((parents g c = [] /\ map (last_on (run init p1)) bs = [None]) \/
+        (parents g c <> [] /\
+         exists qs, map (last_on (run init p1)) bs = map Some qs /\ NoDup qs /\
+                    forall q, In q qs <-> (In q (parents g c) /\
+                                           ~ exists q', In q' (parents g c) /\ q' <> q /\ Anc g q q'))) /\
+       (2 <= length bs ->
+        exists m p3, p2 = m :: p3 /\ kind m = KMerge /\ Permutation (items m) bs /\
+          forall b, In b bs ->
+            exists x, get (run init (p1 ++ map (commit_on c) bs ++ [m])) b = Live x /\
+                      last x = Some c /\ forall a, In a (inc x) <-> Anc g a c)) /\
+  (* there is no other merge: every merge joins distinct live branches that analysed the same commit with at
+     least two non-redundant parents last *)
+  (forall p1 m p2, p = p1 ++ m :: p2 -> kind m = KMerge ->
+     NoDup (items m) /\
+     exists c, (exists q1 q2, q1 <> q2 /\ nonredundant g c q1 /\ nonredundant g c q2) /\
+       forall b, In b (items m) -> exists x, get (run init p1) b = Live x /\ last x = Some c) /\
+  (* actions have the shape Pipeline.Run expects *)
+  Forall wf_action p.
+Proof.
+  intros g p H. destruct (checker_sound g p H) as [S R C B M].
+  split; [exact R|]. split; [exact C|]. split; [exact B|]. split; [exact M | exact S].
+Qed.
